@@ -222,6 +222,11 @@ def _raw_effects(p):
 
 
 def compare(program, live_fi, ref_fi, effects=default_effects, **kw):
+    lk = dict(kw.get("live_kw") or {})
+    rk = dict(kw.get("ref_kw") or {})
+    lk.setdefault("loop_policy", A.carried_state_policy(live_fi.node))
+    rk.setdefault("loop_policy", A.carried_state_policy(ref_fi.node))
+    kw = dict(kw, live_kw=lk, ref_kw=rk)
     r = _compare(program, live_fi, ref_fi, effects=effects, **kw)
     if r.get("loops_live") != r.get("loops_ref"):
         # the two sides disagree on which loops carry state (one of them
